@@ -541,7 +541,11 @@ func (g *gen) tryMutate(form, root string, t *typ, rootStatic bool) bool {
 			}
 		} else {
 			g.guarded(append(p.wguards(), fmt.Sprintf("%d <= cap(%s)", c, p.expr)), func() {
-				g.w.line("%s = %s[%d:%d:%d]", p.expr, p.expr, a, b, c)
+				if a == 0 && g.chance(50) {
+					g.w.line("%s = %s[:%d:%d]", p.expr, p.expr, b, c)
+				} else {
+					g.w.line("%s = %s[%d:%d:%d]", p.expr, p.expr, a, b, c)
+				}
 			})
 			if known && p.static && c <= sh.c {
 				g.shadow[p.expr] = &slen{b - a, c - a}
@@ -1458,7 +1462,11 @@ func (g *gen) opSubsliceAssign() bool {
 	delete(g.shadow, p.expr)
 	if three {
 		g.guarded(append(append(p.wguards(), qguards...), fmt.Sprintf("%d <= cap(%s)", cc, q.expr)), func() {
-			g.w.line("%s = %s[%d:%d:%d]", p.expr, q.expr, a, b, cc)
+			if a == 0 && g.chance(50) {
+				g.w.line("%s = %s[:%d:%d]", p.expr, q.expr, b, cc)
+			} else {
+				g.w.line("%s = %s[%d:%d:%d]", p.expr, q.expr, a, b, cc)
+			}
 		})
 		if known && p.static {
 			g.shadow[p.expr] = &slen{b - a, cc - a}
